@@ -137,6 +137,11 @@ def broken_typed():
     return BrokenTyped()
 
 
+def make_other(i: int) -> Message:
+    """an application request (not a watchdog message)"""
+    return Message.from_bytes(simmod.build_msg(nodegen.ccr(7100 + i, 8100 + i, "node.local")))
+
+
 def make_message(i: int, size: int = 0) -> Message:
     m = Message.from_bytes(simmod.build_msg(nodegen.dwr(7000 + i, 8000 + i, "node.local")))
     if size:
@@ -199,18 +204,32 @@ class CoopLock:
 
 
 class PollQueue:
-    """write queue stub: get() never blocks (the harness only steps the writer when an item is there)"""
+    """write queue stub: get() never blocks (the harness only steps the writer when an item is there, or lets its poll time
+    out).  The *order* in which items come out is that of the queue object the connection was built with (its non-blocking
+    `_put` / `_get` / `_qsize`), so that a queue other than a FIFO shows."""
 
-    def __init__(self):
-        self.items = []
+    def __init__(self, orig=None):
+        import queue
+        self.orig = orig if isinstance(orig, queue.Queue) and all(hasattr(orig, a) for a in ("_put", "_get", "_qsize")) else None
+        self.fifo = []
+
+    @property
+    def items(self):
+        return list(range(self.orig._qsize())) if self.orig is not None else self.fifo
 
     def put(self, x, *a, **k):
-        self.items.append(x)
+        if self.orig is not None:
+            self.orig._put(x)
+        else:
+            self.fifo.append(x)
 
     def get(self, *a, **k):
         import queue
-        if self.items:
-            return self.items.pop(0)
+        if self.orig is not None:
+            if self.orig._qsize():
+                return self.orig._get()
+        elif self.fifo:
+            return self.fifo.pop(0)
         raise queue.Empty()
 
     def get_nowait(self):
@@ -238,7 +257,17 @@ class World:
         self.env = self.sim.env
         assert self.conn.state == peer_mod.PEER_READY
         self.base = len(self.sock.sent)
-        self.conn._write_msg_queue = PollQueue()
+        # (the simulator has swapped the hand-off queue for a FIFO stub by now: a throw-away connection object tells which
+        # kind of queue the library itself builds)
+        try:
+            import realnode
+            probe = peer_mod.PeerConnection("127.0.0.1", 3868, peer_mod.PEER_RECV, realnode.devnull_fd())
+            fresh = type(probe._write_msg_queue)()
+        except Exception:  # noqa
+            fresh = None
+        self.conn._write_msg_queue = PollQueue(fresh)
+        self.poll_timeouts = 0        # how many times the writer's poll of an empty queue may still time out in this run
+        self.used_timeout = False
         self.conn.write_lock = CoopLock()       # (explicit .acquire() calls must not put the harness thread to sleep)
         self.deadlock = None
         self.env.select_budget = 10 ** 9
@@ -287,12 +316,15 @@ class World:
         if self.wpos in ("dead", None):
             return False
         if self.wpos == "get":
-            return bool(self.conn._write_msg_queue.items)
+            return bool(self.conn._write_msg_queue.items) or self.poll_timeouts > 0
         if self.wpos == "blocked":
             return not self.conn.write_lock.locked()
         return True
 
     def step_w(self):
+        if self.wpos == "get" and not self.conn._write_msg_queue.items:
+            self.poll_timeouts -= 1          # the writer's poll of the empty queue times out
+            self.used_timeout = True
         kind = self.wpos
         was_locked = self.conn.write_lock.locked()
         self._advance_w()
